@@ -424,6 +424,29 @@ def tables(ctx):
     if not (isinstance(Jc, SpatialInertia) and len(Jc) == 1 and close(Jc.A, np.asarray(J.A, float) + np.asarray(J2.A, float), 1e-13)[0]):
         ctx.fail('tab:inertia-inplace-add:inertia+inertia:wrong-result', "I += J is not the SpatialInertia holding the matrix sum",
                  {'op': 'inertia-inplace-add', 'length': len(Jc) if hasattr(Jc, '__len__') else None})
+    # ---- accumulation starting from the DEFAULT (zero) inertia, as in a composite-body loop: the sum is right, the operand is untouched, and
+    #      every later default-constructed / allocated inertia is still zero and every later composite still right (no shared zero value)
+    J2_before = np.array(J2.A, float)
+    Z0 = SpatialInertia()
+    Z0 += J2
+    Zc = SpatialInertia()
+    Zc = Zc + J2
+    fresh = SpatialInertia()
+    alloc = SpatialInertia.Alloc(3)
+    Z2 = SpatialInertia()
+    Z2 += J
+    ctx.case(('tab', 'inertia-accumulate-from-default'))
+    ctx.count('tab:inertia-accumulate-from-default')
+    obs_acc = {'first composite': close(Z0.A, J2_before, 1e-13)[0], 'binary composite': close(Zc.A, J2_before, 1e-13)[0],
+               'operand unchanged': close(J2.A, J2_before, 0.0)[0] or bool(np.array_equal(np.asarray(J2.A, float), J2_before)),
+               'later default inertia is zero': bool(np.array_equal(np.asarray(fresh.A, float), np.zeros((6, 6)))),
+               'later Alloc(3) is zero': len(alloc) == 3 and all(np.array_equal(np.asarray(a, float), np.zeros((6, 6))) for a in alloc.data),
+               'second composite': close(Z2.A, np.asarray(J.A, float), 1e-13)[0]}
+    for what_, ok_ in obs_acc.items():
+        if not ok_:
+            ctx.fail(f"hist:inertia-accumulate-from-default:{what_.replace(' ', '-')}",
+                     f"I = SpatialInertia(); I += J; then SpatialInertia() / Alloc / a second composite: {what_} fails (a shared zero value was written to)",
+                     {'op': 'inertia accumulate from default', 'observed': {k: bool(v) for k, v in obs_acc.items()}})
     assert next(it, None) is None
 
     # ---- multi-valued LEFT operand of cross (self.A is a list): not supported; an exception or the element-wise
